@@ -203,12 +203,16 @@ def run_roundtrip(tid, rc, chunking, direction, relay, rng):
         rec = concretise_record(rc, rng)
         sent = [rec, C.Ack(7)]
         ok_ready = src.p._can_send_records and dst.candidate > 0
+        raised = []
         if ok_ready:
             for r in sent:
-                src.p.send_record(r)
+                try:
+                    src.p.send_record(r)
+                except Exception as e:          # send_record() of a legal record must not raise
+                    raised.append("send_record: %r" % (e,))
             feed(pair, dst, drain_writes(pair, src), chunking, rng)
         got = dst.records[before:]
-        internal = [repr(e)[:100] for e in logged.items]
+        internal = [repr(e)[:100] for e in logged.items] + [x[:100] for x in raised]
         return {"tid": tid, "kind": "roundtrip", "identical": ok_ready and got == sent, "got": len(got), "sent": len(sent),
                 "atFault": -1, "dropped": not dst.p.transport.connected or dst.p.transport.disconnecting, "stalled": False,
                 "candidate": dst.candidate > 0, "faultKind": "-", "internal": internal, "rc": rc, "chunking": chunking,
